@@ -188,8 +188,8 @@ def run_sched_shard(spec):
     cases = []
     scratch = spec["scratch"]
     for k in spec["scripts"]:
-        rnd = rng(spec["seed"], "c01sched", k)
-        sets = SCHED_SETS + c10.FORCED
+        rnd = rng(spec["seed"], "c01sched" if not spec.get("only_flags") else "c04sched", k)
+        sets = (spec.get("sets") or SCHED_SETS) + c10.FORCED
         cmdset = sets[k] if k < len(sets) else c10.gen_set(rnd)
         cmdset = [(w, list(c) + (["NOOP"] if w not in (None, "pop3") else [])) for w, c in cmdset]
         ctx = {"script": k, "dir": None}
@@ -223,6 +223,9 @@ def run_sched_shard(spec):
             counts["final_view_size_checks"] += info.get("final_view_checks", 0)
             counts["final_flag_belief_checks"] += info.get("final_flag_belief_checks", 0)
             hashes.add(common.h(holder["loop"].trace))
+            if spec.get("only_flags"):
+                # (C04's scheduled tier: what each session was last told about a position's flags)
+                info["view_errors"] = [e for e in info.get("view_errors") or [] if e.startswith("flags:")]
             if info.get("view_errors") and witness is None:
                 witness = {"kind": "view-monitor", "detail": str(info["view_errors"][:2])[:6000], "commands": cmdset, "schedule": list(holder["loop"].trace)[:200], "seed": sd, "strategy": strategy.__name__, "data": {}}
         counts["distinct_schedules"] += len(hashes)
